@@ -50,4 +50,14 @@ PROPS = {
         assumptions=COMMON_ASSUME,
         timeout={"quick": 900, "thorough": 3000},
     ),
+    "C02": dict(
+        lean_modules=["Jrpc.Props.C02", "Jrpc.Tie.C02"],
+        namespaces=["Jrpc.Props.C02", "Jrpc.Tie.C02"],
+        harness_test="TestC02",
+        min_theorems=20,
+        level_text="Machine-checked Lean theorems over the wire model (envelope -> member field scan with deferred error -> reader filter -> checkAndAssign -> responses -> reply shape), for EVERY member view (any keys / raw values) and every byte string: undecodable => one {null,-32700}; [] => one -32600; member errors only -32700/-32600; -32601 only for a well-formed request without handler; handler only for valid requests; id echo is the member's string/number id else null; notifications silent; null id == absent; unmatched reply dropped on a push server; array iff inbound array. The predicates/constants are re-derived from /repo (Tie.C02) and the model is compared with a real Server on the field-variant product, batches and junk, with a liveness probe after each record.",
+        level_note="Trusted: Lean kernel, go2lean, harness. The byte layer (scanner automaton, element/member splitting, string unquoting) mirrors encoding/json and is validated by the correspondence run, not proved equal to it. Map iteration order is modelled as a set of admissible codes.",
+        trusted_base=["encoding/json: validity, RawMessage boundaries, map decoding (last duplicate wins), struct decoding of the Error object (validated by correspondence)"],
+        assumptions=COMMON_ASSUME + ["the server has nothing in flight when the record arrives (C07 covers id reservations across requests)", "handler-supplied Error.Data is valid JSON"],
+    ),
 }
